@@ -1,11 +1,21 @@
 /* C04 differential harness (engine `strings`): bitmap <-> string conversions.
  * Includes hwloc/bitmap.c itself (private struct access; strtoul is wrapped to detect inputs outside
- * the modelled domain: a sign character in a number, or a list index >= 2^21).
+ * the set-level domain of the list format: an index >= 2^21, which would mean giant allocations.  Sign characters
+ * are inside the domain of the cursor-level model Hw.Bitmap.Cursor and are compared like everything else).
+ *
+ * Parse ops additionally MEASURE the furthest byte the real parser reads: the first n bytes of the string are placed
+ * right below a PROT_NONE page (no NUL unless n = len+1) and the parser is run; a read of index >= n is a SIGSEGV in
+ * the guard page (caught, siglongjmp).  The smallest n-1 that does not fault is the furthest index read; it is
+ * compared with the maximum of the model's read log (proved <= len for every byte string).  Exact: a fault happens
+ * iff some byte at index >= n is really accessed (libc's vector string routines never cross a page needlessly).
  *
  * usage: strings <ncases> <ops-file> <out-file> <stats-file>      (generate; seed = VERIF_SEED)
  *        strings --replay <ops-file> <out-file>
  */
 #include <setjmp.h>
+#include <signal.h>
+#include <sys/mman.h>
+#include <unistd.h>
 #include <stdlib.h>
 #include <ctype.h>
 static jmp_buf verif_jb;
@@ -18,9 +28,6 @@ static unsigned long verif_strtoul(const char *s, char **end, int base);
 #include <string.h>
 
 static unsigned long verif_strtoul(const char *s, char **end, int base) {
-  const char *p = s;
-  while (*p == ' ' || (*p >= 9 && *p <= 13)) p++;
-  if (*p == '+' || *p == '-') longjmp(verif_jb, 1);
   unsigned long v = strtoul(s, end, base);
   if (verif_list_mode && v >= (1UL << 21)) longjmp(verif_jb, 1);
   return v;
@@ -53,6 +60,43 @@ static sscanf_fn get_sscanf(const char *fmt) {
   if (!strcmp(fmt, "list")) return hwloc_bitmap_list_sscanf;
   if (!strcmp(fmt, "taskset")) return hwloc_bitmap_taskset_sscanf;
   return NULL;
+}
+
+
+/* ---- guard-page measurement of the furthest index read ---- */
+static sigjmp_buf segv_jb;
+static volatile sig_atomic_t segv_armed;
+static char *guard_region;          /* GPAGES readable pages followed by one PROT_NONE page */
+#define GPAGES 2
+static long pagesz;
+static void segv_handler(int sig, siginfo_t *si, void *ctx) {
+  (void) ctx;
+  char *a = (char *) si->si_addr, *g = guard_region + GPAGES * pagesz;
+  if (segv_armed && a >= g && a < g + pagesz) { segv_armed = 0; siglongjmp(segv_jb, 1); }
+  signal(sig, SIG_DFL);             /* anything else is a real crash: let it happen again with the default action */
+}
+static void guard_init(void) {
+  pagesz = sysconf(_SC_PAGESIZE);
+  guard_region = mmap(NULL, (GPAGES + 1) * pagesz, PROT_READ | PROT_WRITE, MAP_PRIVATE | MAP_ANONYMOUS, -1, 0);
+  if (guard_region == MAP_FAILED || mprotect(guard_region + GPAGES * pagesz, pagesz, PROT_NONE)) { perror("guard"); exit(3); }
+  struct sigaction sa; memset(&sa, 0, sizeof sa);
+  sa.sa_sigaction = segv_handler; sa.sa_flags = SA_SIGINFO | SA_NODEFER; sigemptyset(&sa.sa_mask);
+  sigaction(SIGSEGV, &sa, NULL); sigaction(SIGBUS, &sa, NULL);
+}
+/* run fn(dst, p): 0 = returned (*ret set), 1 = faulted in the guard page, 2 = left through the unsupported longjmp */
+static int run_guarded(sscanf_fn fn, hwloc_bitmap_t dst, const char *p, int *ret) {
+  if (setjmp(verif_jb)) { segv_armed = 0; return 2; }
+  if (sigsetjmp(segv_jb, 1)) return 1;
+  segv_armed = 1;
+  *ret = fn(dst, p);
+  segv_armed = 0;
+  return 0;
+}
+/* the first n bytes of s right below the guard page */
+static const char *place_prefix(const char *s, size_t n) {
+  char *p = guard_region + GPAGES * pagesz - n;
+  memcpy(p, s, n);
+  return p;
 }
 
 static hwloc_bitmap_t mk_bitmap(int inf, unsigned n, unsigned long *ws) {
@@ -101,9 +145,10 @@ static int exec_line(char *line) {
     put_hex((unsigned char *) s, strlen(s));
     fputc('\n', fout);
     free(s); hwloc_bitmap_free(b);
-  } else if (!strcmp(tok[0], "sscanf") && nt == 3) {
+  } else if (!strcmp(tok[0], "sscanf") && (nt == 3 || nt == 4)) {
     const char *fmt = tok[1];
     size_t hl = strcmp(tok[2], "-") ? strlen(tok[2]) / 2 : 0;
+    if (hl + 1 > (size_t) (GPAGES * pagesz)) { fprintf(fout, "bad-op\n"); return -1; }
     /* exact-size heap copy: a 1-byte over-read is an ASan report */
     char *s = malloc(hl + 1);
     for (size_t i = 0; i < hl; i++) { unsigned v; sscanf(tok[2] + 2 * i, "%2x", &v); s[i] = (char) v; }
@@ -112,7 +157,8 @@ static int exec_line(char *line) {
     unsigned long pa[40], pb[40];
     for (int i = 0; i < 40; i++) { pa[i] = 0xAAAAAAAAAAAAAAAAUL; pb[i] = 0x5555555555555555UL; }
     hwloc_bitmap_t A = mk_bitmap(1, 40, pa), B = mk_bitmap(0, 40, pb);
-    verif_list_mode = !strcmp(fmt, "list");
+    int is_list = !strcmp(fmt, "list");
+    verif_list_mode = is_list;
     if (setjmp(verif_jb)) {
       fprintf(fout, "unsupported\n");
     } else {
@@ -120,15 +166,42 @@ static int exec_line(char *line) {
       int rb = get_sscanf(fmt)(B, s);
       int same = ra == rb && A->ulongs_count == B->ulongs_count && A->infinite == B->infinite
                  && !memcmp(A->ulongs, B->ulongs, A->ulongs_count * sizeof(unsigned long));
-      if (!same) fprintf(fout, "undef\n");
+      /* furthest index read, measured on the real code (see the head of this file); fresh destinations */
+      long maxread = -1; unsigned alloc = 0; const char *bad = NULL;
+      {
+        int rc = 0;
+        hwloc_bitmap_t C = hwloc_bitmap_alloc();
+        int st = run_guarded(get_sscanf(fmt), C, place_prefix(s, hl + 1), &rc);
+        if (st != 0) bad = "full-string-faults";
+        else if (rc != ra || !hwloc_bitmap_isequal(C, A)) bad = "guarded-run-differs";
+        alloc = C->ulongs_allocated;
+        hwloc_bitmap_free(C);
+        maxread = (long) hl;
+        for (size_t n = hl; n >= 1 && !bad; n--) {
+          hwloc_bitmap_t D = hwloc_bitmap_alloc();
+          int rd_ = 0;
+          st = run_guarded(get_sscanf(fmt), D, place_prefix(s, n), &rd_);
+          if (st == 0 && (rd_ != ra || !hwloc_bitmap_isequal(D, A))) bad = "prefix-run-differs";
+          hwloc_bitmap_free(D);
+          if (st == 1) break;
+          if (st == 2) { bad = "prefix-run-unsupported"; break; }
+          maxread = (long) n - 1;
+        }
+      }
+      if (bad) fprintf(fout, "%s\n", bad);
+      else if (!same) fprintf(fout, "undef\n");
       else if (ra == -1) {
         /* documented: destination zeroed on failure */
-        if (hwloc_bitmap_iszero(A)) fprintf(fout, "fail\n"); else fprintf(fout, "fail-notzero\n");
+        if (hwloc_bitmap_iszero(A)) fprintf(fout, "fail"); else fprintf(fout, "fail-notzero");
       } else if (ra == 0) {
         fprintf(fout, "ok %u %d", A->ulongs_count, A->infinite ? 1 : 0);
         for (unsigned i = 0; i < A->ulongs_count; i++) fprintf(fout, " %lx", A->ulongs[i]);
+      } else fprintf(fout, "ret %d", ra);
+      if (!bad && same) {
+        fprintf(fout, " maxread %ld", maxread);
+        if (!is_list) fprintf(fout, " alloc %u", alloc);
         fputc('\n', fout);
-      } else fprintf(fout, "ret %d\n", ra);
+      }
     }
     verif_list_mode = 0;
     free(s); hwloc_bitmap_free(A); hwloc_bitmap_free(B);
@@ -170,6 +243,7 @@ static void emit_line(const char *line) {
   fprintf(fops, "%s\n", line); fflush(fops);
   strncpy(copy, line, sizeof copy - 1); copy[sizeof copy - 1] = 0;
   exec_line(copy);
+  fflush(fout);          /* so that a sanitizer abort in the NEXT op is attributed to that op */
 }
 
 static void words_to_str(char *dst, size_t dsz, int inf, int n, unsigned long *ws) {
@@ -233,7 +307,7 @@ static void gen_case(void) {
       if (rng_chance(30) && len + 8 < sizeof s) { memcpy(s, "0xf...f", 7); size_t l2 = rng_below(20); for (size_t i = 0; i < l2; i++) s[7 + i] = alphabet[rng_below(sizeof alphabet - 1)]; len = 7 + l2; }
       else for (size_t i = 0; i < len; i++) s[i] = alphabet[rng_below(sizeof alphabet - 1)];
       nstat[4]++;
-    } else if (k < 90) {
+    } else if (k < 88) {
       /* boundary shapes */
       static const char *shapes[] = {"", ",", ",,", "0x", "0x,", ",0x1", "0x1,", "0xf...f", "0xf...f,", "0xf...f,,", "0xf...fz",
         "0xf...f,0x1,", "0x1,,", "-", "1-", "1-,", "1--2", "0x10-0x20", "010", "08", "1,,2", "1, 2", " 1", "1 ", "3x5", "0xf...f0", "0xf...f00000000",
@@ -241,6 +315,47 @@ static void gen_case(void) {
       const char *sh = shapes[rng_below(sizeof shapes / sizeof shapes[0])];
       len = strlen(sh); memcpy(s, sh, len);
       nstat[5]++;
+    } else if (k < 93) {
+      /* signs and white space inside numbers (cursor-level model: glibc negates modulo 2^64), per format */
+      static const char *signs[] = {"-1", "+1", "-0", "+0", "-", "+", "--1", "+-1", "-+1", " -1", "\t+f", "- 1", "-0x1", "+0x", "-0x", "0x-1", "0x+1",
+        "-ffffffffffffffff", "-10000000000000000", "-ffffffffffffffffffff", "+ffffffffffffffff0", "1,-1", "-1,1", "+f,-2", "-1,-1,-1", "0xf...f,-1",
+        "0xf...f,+0", "0xf...f-1", "0xf...f+1", "0x-f", "1-+2", "+1-+3", "+5", "+1,+2", "1-+", "2,+", "-18446744073709551615", "+0-+0", " +3 , +4",
+        "0xf...f -1", "0x +1", "+0x10-+0x12", "-0-0", "-0,1"};
+      const char *sh = signs[rng_below(sizeof signs / sizeof signs[0])];
+      len = strlen(sh); memcpy(s, sh, len);
+      if (rng_chance(40) && len + 6 < sizeof s) { size_t l2 = 1 + rng_below(5); for (size_t i = 0; i < l2; i++) s[len + i] = "0123456789abcdef,-+ x"[rng_below(21)]; len += l2; }
+      nstat[7]++;
+    } else if (k < 96) {
+      /* long inputs: more words than HWLOC_BITMAP_PREALLOC_ULONGS (the reset must enlarge), many commas, long digit runs */
+      unsigned kind = rng_below(4);
+      if (kind == 0) {            /* hwloc format shape: n groups */
+        unsigned n = 14 + rng_below(40);
+        if (rng_chance(40)) { memcpy(s, "0xf...f,", 8); len = 8; }
+        for (unsigned i = 0; i < n && len + 12 < sizeof s; i++) {
+          if (i) s[len++] = ',';
+          if (rng_chance(80)) len += sprintf((char *) s + len, "0x%08lx", (unsigned long) (rng_next() & 0xffffffffUL));
+        }
+      } else if (kind == 1) {     /* taskset shape: many hex digits */
+        unsigned n = 100 + rng_below(300);
+        if (rng_chance(30)) { memcpy(s, "0xf...f", 7); len = 7; } else if (rng_chance(70)) { memcpy(s, "0x", 2); len = 2; }
+        for (unsigned i = 0; i < n; i++) s[len++] = "0123456789abcdef"[rng_below(16)];
+        if (rng_chance(10)) s[rng_below(len)] = "g,-+ "[rng_below(5)];
+      } else if (kind == 2) {     /* list shape: many ranges, then possibly a bad token far from the end */
+        unsigned n = 5 + rng_below(40), v = 0;
+        for (unsigned i = 0; i < n && len + 24 < sizeof s; i++) {
+          v += 1 + rng_below(40);
+          if (i) s[len++] = rng_chance(80) ? ',' : ' ';
+          if (rng_chance(8)) { s[len++] = "x-,+g"[rng_below(5)]; continue; }
+          len += sprintf((char *) s + len, "%u", v);
+          if (rng_chance(40)) { unsigned w = v + rng_below(30); len += sprintf((char *) s + len, "-%u", w); v = w; }
+        }
+        if (rng_chance(20)) s[len++] = '-';
+      } else {                    /* one very long digit run (overflow saturation in strtoul) */
+        unsigned n = 15 + rng_below(30);
+        if (rng_chance(50)) { memcpy(s, "0x", 2); len = 2; }
+        for (unsigned i = 0; i < n; i++) s[len++] = "0123456789abcdef"[rng_below(rng_chance(50) ? 10 : 16)];
+      }
+      nstat[8]++;
     } else {
       /* raw bytes 1..255 */
       len = rng_below(12);
@@ -249,12 +364,13 @@ static void gen_case(void) {
     }
     for (size_t i = 0; i < len; i++) if (!s[i]) s[i] = '0';
     hex_of(hx, s, len);
-    snprintf(line, sizeof line, "sscanf %s %s", fmt, hx);
+    snprintf(line, sizeof line, "sscanf %s %s %u", fmt, hx, (unsigned) HWLOC_BITMAP_PREALLOC_ULONGS);
     emit_line(line);
   }
 }
 
 int main(int argc, char **argv) {
+  guard_init();
   if (argc >= 4 && !strcmp(argv[1], "--replay")) {
     FILE *in = fopen(argv[2], "r"); fout = fopen(argv[3], "w");
     if (!in || !fout) return 2;
@@ -272,8 +388,8 @@ int main(int argc, char **argv) {
   fclose(fops); fclose(fout);
   FILE *fs = fopen(argv[4], "w");
   if (fs) {
-    static const char *names[] = {"snprintf.len", "asprintf", "sscanf.printed", "sscanf.mutated", "sscanf.grammar", "sscanf.shapes", "sscanf.bytes"};
-    for (int i = 0; i < 7; i++) fprintf(fs, "%s %lu\n", names[i], nstat[i]);
+    static const char *names[] = {"snprintf.len", "asprintf", "sscanf.printed", "sscanf.mutated", "sscanf.grammar", "sscanf.shapes", "sscanf.bytes", "sscanf.signs", "sscanf.long"};
+    for (int i = 0; i < 9; i++) fprintf(fs, "%s %lu\n", names[i], nstat[i]);
     fclose(fs);
   }
   return 0;
